@@ -81,6 +81,27 @@ def _lower_bound(tests, is_var, consts):
     return lo
 
 
+def _is_len_call(v):
+    return v[0] == "call" and pa.short(v[1]) in ("remaining", "len") and (v[1].startswith(("bytes::", "<", "core::slice", "[T]", "alloc::vec", "alloc::collections")) or "Buf" in v[1])
+
+
+def _has_len(v):
+    return expr.mentions(v, _is_len_call)
+
+
+def _mem_len_sum(v):
+    """v is built only from small constants, remaining()/len() of buffers and sums of those."""
+    if v[0] == "const" and isinstance(v[1], int):
+        return 0 <= v[1] < (1 << 32)
+    if _is_len_call(v):
+        return True
+    if v[0] == "proj" and tuple(n.lstrip(".") for n in v[2]) == ("0",):
+        return _mem_len_sum(v[1])
+    if v[0] == "binop" and v[1].replace("WithOverflow", "") == "Add":
+        return _mem_len_sum(v[2]) and _mem_len_sum(v[3])
+    return False
+
+
 def guard_for(path, ev_index, ev, kind, consts):
     """Return a text describing the guard that makes this site safe on this path, or None."""
     prior = [path.tests[e[2]] for e in path.events[:ev_index] if e[0] == "test"]
@@ -128,6 +149,10 @@ def guard_for(path, ev_index, ev, kind, consts):
                     lo, hi = (ra[0] + rb[0], ra[1] + rb[1]) if t.aop == "Add" else (ra[0] - rb[1], ra[1] - rb[0])
                     if ty[0] <= lo and hi <= ty[1]:
                         return "operand ranges keep the result in [%d, %d]" % (lo, hi)
+            if t.akind == "overflow" and t.aop == "Add" and va is not None and vb is not None and _mem_len_sum(va) and _mem_len_sum(vb) \
+                    and (_has_len(va) or _has_len(vb)):
+                # a sum of lengths of buffers that are in memory at the same time cannot exceed the address space
+                return "sum of in-memory buffer lengths (remaining()/len())"
             a = expr.fold(va, consts) if va is not None else None
             b = expr.fold(vb, consts) if vb is not None else None
             if t.akind in ("divzero", "remzero"):
